@@ -216,9 +216,20 @@ def valid_frame(draw, pic, kinds=None):
 
 def _fw_payload(draw, good, size):
     """Mostly the well-formed hex payload, sometimes a malformed variant."""
-    pick = draw(st.integers(0, 11))
+    pick = draw(st.integers(0, 13))
     if pick < 8:
         return good.upper() if pick == 7 else good
+    if pick >= 12:
+        # all the right digits, with blanks in front of / between the byte pairs (hex readers that skip blanks)
+        sep = draw(st.sampled_from([" ", " ", "\t", "\x0b", "\x0c"]))
+        if pick == 12:
+            return sep + good
+        cuts = sorted(draw(st.sets(st.integers(1, max(1, len(good) // 2 - 1)), min_size=1, max_size=3)))
+        out, last = "", 0
+        for c in cuts:
+            out += good[last:2 * c] + sep
+            last = 2 * c
+        return out + good[last:]
     if pick == 8:
         return good[: draw(st.integers(0, size - 1))]
     if pick == 9:
@@ -266,7 +277,7 @@ wild_payload = st.one_of(
     st.integers(-10 ** 20, 10 ** 20).map(str),
 )
 
-HUGE_NUMBERS = ["9" * 4301, "1.4." + "9" * 4301, "2." + "0" * 4400 + "1", "-" + "1" * 4400, "1" * 4300, "0" * 5000, "1e" + "9" * 4400, "9" * 4301 + ".5", "7" * 20000]
+HUGE_NUMBERS = ["L" * 70000, "9" * 4301, "1.4." + "9" * 4301, "2." + "0" * 4400 + "1", "-" + "1" * 4400, "1" * 4300, "0" * 5000, "1e" + "9" * 4400, "9" * 4301 + ".5", "7" * 20000]
 
 GARBAGE = ["", ";", ";;;;;", "1;2;3", "1;2;3;4;5", "1;2;3;4;5;6;7", "a;b;c;d;e;f", "1;255;3;0;x;", "hello", "1;1;1;0;", "\x00", "1;1;1;0;2;1;", "1.0;1;1;0;2;1", "１;1;1;0;2"]
 
@@ -400,10 +411,12 @@ def histories(draw, versions=T.VERSIONS, max_ops=30, invalid=True, controller=Tr
             if wake is not None and draw(st.booleans()):
                 ops.append({"op": "line", "text": frame((nid, 255, T.INTERNAL, 0, wake, "5"))})
     weights = dict(valid=62, near=10 if invalid else 0, raw=6 if invalid else 0, set=12 if controller else 0,
-                   fw=4 if ota else 0, metric=2, cb_raise=2 if cb_raise else 0, clock=2, wild=0, save=0, desire=3 if controller else 0, race=0, confirm=2 if controller else 0, otaflow=2 if ota else 0, burst=3, restart=0, neighbour=2)
+                   fw=4 if ota else 0, metric=2, cb_raise=2 if cb_raise else 0, clock=2, wild=0, save=0, desire=3 if controller else 0, race=0, confirm=2 if controller else 0, otaflow=2 if ota else 0, burst=3, restart=0, neighbour=2, latechild=2)
     weights.update(op_weights or {})
     if weights.get("save") and "restart" not in (op_weights or {}):
         weights["restart"] = 2  # histories on a gateway with a persistence file also span clean restarts
+        if cb_raise:
+            weights["cbsave"] = 2
     table = [k for k, w in weights.items() for _ in range(w)]
     pic2 = None
     for _ in range(n_ops):
@@ -514,6 +527,37 @@ def histories(draw, versions=T.VERSIONS, max_ops=30, invalid=True, controller=Tr
             ops.append({"op": "nline", "text": frame(draw(valid_frame(pic2)))})
         elif roll == "save":
             ops.append({"op": "save"})
+        elif roll == "latechild":
+            # template: a node that already sleeps presents one more child, reports a value for it and asks
+            # for that value before its next wake-up (the reply is owed at that wake-up)
+            cands = [n for n in pic.known_nodes() if pic.known_children(n) and 0 < n < 255]
+            wake = T.wake_sub(version)
+            if cands and wake is not None:
+                nid = draw(st.sampled_from(cands))
+                fresh = [c for c in CHILD_POOL + [3, 4, 5] if c not in pic.known_children(nid)]
+                if fresh:
+                    cid = draw(st.sampled_from(fresh))
+                    vt = draw(st.sampled_from([0, 2, 3, 24]))
+                    wline = frame((nid, 255, T.INTERNAL, 0, wake, "7"))
+                    ops.append({"op": "line", "text": wline})
+                    ops.append({"op": "line", "text": frame((nid, cid, T.PRESENTATION, 0, 6, "late"))})
+                    ops.append({"op": "line", "text": frame((nid, cid, T.SET, 0, vt, draw(conforming(T.payload_rule(version, T.SET, vt)))))})
+                    ops.append({"op": "line", "text": frame((nid, cid, T.REQ, 0, vt, ""))})
+                    if draw(st.booleans()):
+                        ops.append({"op": "set", "n": nid, "c": cid, "vt": vt, "value": draw(conforming(T.payload_rule(version, T.SET, vt)))})
+                    ops.append({"op": "line", "text": wline})
+                    pic.nodes[nid].setdefault(cid, set()).add(vt)
+        elif roll == "cbsave":
+            # template: everything is saved, then reports arrive while the user's callback raises, then the
+            # process restarts: what was accepted must be in the file all the same
+            ops.append({"op": "save"})
+            ops.append({"op": "cb_raise", "value": True})
+            for _ in range(draw(st.integers(1, 3))):
+                ops.append({"op": "line", "text": frame(draw(valid_frame(pic, ["set", "battery", "sketch", "child", "node"])))})
+            ops.append({"op": "restart"})
+            pic.fw, pic.images = [], {}
+            pic.desired = {}
+            ops.append({"op": "cb_raise", "value": draw(st.booleans())})
         elif roll == "restart":
             ops.append({"op": "restart"})
             pic.fw, pic.images = [], {}
